@@ -61,6 +61,7 @@ def search(ctx, mod):
       ctx.temp_excluded.add(v.sig)
       ctx.first_fail = None
       ctx.best_fail_key = None
+      ctx.best_outer_key = None
       if ctx.shard is not None:
         break
   return found
